@@ -31,6 +31,8 @@ namespace {
         ACT_START = 0,
         ACT_DROP = 1,          // the sender is destroyed unstarted (its destructor starts it detached)
         ACT_COPY_SENDER = 2,   // read senders only: copy, start both
+        ACT_RELEASE_INLINE = 3,    // the continuation releases its wrapper at once and, if the next access has been
+                                   // started and depends on nothing else, waits inside the continuation for its grant
     };
 
     struct Val
@@ -159,6 +161,11 @@ namespace {
             using W = std::conditional_t<RW, rw_w, read_w>;
             void set_value(W w) && noexcept
             {
+                if (R[(size_t) i].action == ACT_RELEASE_INLINE)
+                {
+                    release_inline(std::move(w));
+                    return;
+                }
                 AtomicSection atomic;    // receiver = harness bookkeeping
                 Runner* s = self;
                 int idx = i;
@@ -182,6 +189,48 @@ namespace {
                         g_readers_active++;
                     }
                     s->held[(size_t) idx].reads.push_back(std::move(w));
+                }
+            }
+            // release inside the continuation, then wait there (blocking) for the next access if it only depends on
+            // this one: the grant must not need the continuation's caller to unwind first
+            void release_inline(W w)
+            {
+                int idx = i;
+                int nxt = -1;
+                {
+                    AtomicSection atomic;
+                    Req& r = R[(size_t) idx];
+                    int ver = 0;
+                    if constexpr (!IsVoid) ver = w.get().version;
+                    on_grant(idx, ver);
+                    r.holders++;
+                    if constexpr (RW && !IsVoid) w.get().version++;
+                    int n = (int) R.size();
+                    if (idx + 1 < n && !R[(size_t) idx + 1].new_wave && R[(size_t) idx + 1].action != ACT_DROP &&
+                        R[(size_t) idx + 1].started && (R[(size_t) idx + 1].kind == 1 || r.kind == 1))
+                    {
+                        bool only_me = true;
+                        for (int k = 0; k <= idx; k++)
+                            if (k != idx && !R[(size_t) k].all_released) only_me = false;
+                        if (only_me) nxt = idx + 1;
+                    }
+                }
+                {
+                    W victim(std::move(w));
+                    on_release_one(idx);
+                }    // wrapper destroyed here: library code, may grant the next access inline
+                probe("released_inside_continuation");
+                if (nxt >= 0)
+                {
+                    probe("waited_inside_continuation_for_next_access");
+                    for (;;)
+                    {
+                        {
+                            AtomicSection atomic;
+                            if (R[(size_t) nxt].grants > 0) break;
+                        }
+                        std::this_thread::yield();
+                    }
                 }
             }
             void set_error(std::exception_ptr) && noexcept { violation("C04.error", "access %d completed with an error", i); }
@@ -400,7 +449,7 @@ namespace {
                 op.v[0] = r.chance(45, 100) ? 1 : 0;
                 op.v[1] = (int64_t) r.below((uint64_t) nthreads);
                 op.v[2] = r.range(0, 3);
-                op.v[3] = r.chance(1, 6) ? ACT_DROP : (r.chance(1, 5) ? ACT_COPY_SENDER : ACT_START);
+                op.v[3] = r.chance(1, 6) ? ACT_DROP : (r.chance(1, 5) ? ACT_COPY_SENDER : (r.chance(1, 5) ? ACT_RELEASE_INLINE : ACT_START));
                 op.v[4] = r.range(0, 2);
                 op.v[5] = (int64_t) r.below((uint64_t) nthreads);
                 op.v[6] = r.range(0, 4);
@@ -416,9 +465,9 @@ namespace {
             q.kind = (int) (op.v[0] & 1);
             q.starter = (int) (((op.v[1] % nthreads) + nthreads) % nthreads);
             q.start_delay = (int) (op.v[2] & 3);
-            q.action = (int) (((op.v[3] % 3) + 3) % 3);
+            q.action = (int) (((op.v[3] % 4) + 4) % 4);
             if (q.kind == 1 && q.action == ACT_COPY_SENDER) q.action = ACT_START;
-            q.copies = q.kind == 0 ? (int) (op.v[4] % 3) : 0;
+            q.copies = q.kind == 0 && q.action != ACT_RELEASE_INLINE ? (int) (op.v[4] % 3) : 0;
             q.releaser = (int) (((op.v[5] % nthreads) + nthreads) % nthreads);
             q.release_delay = (int) (op.v[6] & 7);
             q.expected_grants = q.action == ACT_COPY_SENDER ? 2 : 1;
